@@ -382,6 +382,57 @@ func corrC17(outDir string, seed uint64, tier string, replay string) *report {
 			runDec(c, mkEvents(bad, r.intn(3)), sizes, nil, false, n <= 400, "corrupt")
 		}
 	}
+	// line-wrapped text (PEM-like: a line break after every w symbols, w = 1..76) delivered byte by byte, line by line
+	// with each terminator as a read of its own, or in large reads: hundreds of reads that hold only CR/LF
+	wraps := []int{1, 4, 64, 76}
+	if tier == "thorough" {
+		wraps = []int{1, 2, 3, 4, 5, 16, 64, 76}
+	}
+	for wi, w := range wraps {
+		c := cfgs[wi%4]
+		n := 120 + 90*wi
+		if w >= 64 {
+			n = 9000
+		}
+		data := r.bytes(n)
+		text := c.enc().EncodeToString(data)
+		for _, nl := range []string{"\n", "\r\n"} {
+			var lines []string
+			for off := 0; off < len(text); off += w {
+				e := off + w
+				if e > len(text) {
+					e = len(text)
+				}
+				lines = append(lines, text[off:e])
+			}
+			for mode := 0; mode < 3; mode++ {
+				var evs []revent
+				for _, ln := range lines {
+					switch mode {
+					case 0: // one byte per read
+						for k := 0; k < len(ln); k++ {
+							evs = append(evs, revent{[]byte{ln[k]}, nil})
+						}
+						for k := 0; k < len(nl); k++ {
+							evs = append(evs, revent{[]byte{nl[k]}, nil})
+						}
+					case 1: // the line, then its terminator as a read of its own
+						evs = append(evs, revent{[]byte(ln), nil}, revent{[]byte(nl), nil})
+					default: // whole lines with their terminators
+						evs = append(evs, revent{[]byte(ln + nl), nil})
+					}
+				}
+				if mode == 1 {
+					evs = append(evs, revent{nil, &tokErr{11}})
+				}
+				var sizes []int
+				for k := 0; k < 2*len(evs)+n+20; k++ {
+					sizes = append(sizes, []int{1, 3, 64, 1000}[(k+mode+wi)%4])
+				}
+				runDec(c, evs, sizes, data, true, false, "line_wrapped")
+			}
+		}
+	}
 	// exhaustive: every way a reader fragments a short text (compositions), several buffer sizes
 	maxT := 7
 	if tier == "thorough" {
